@@ -230,7 +230,9 @@ TDamage ==
          \* may legitimately drop (C03): there the wider rule applies
          \* (bit flips, overwritten bytes, zeroed runs and garbage blocks are all caught by the checksums; only a cut can
          \* remove whole records without a trace)
-         strict == e.kind \in {"flip", "bytes", "zeros", "garbage"} /\ ~e.tail
+         \* (a cut of a *hint* file removes index entries only: every data file is intact, so it has to be harmless or
+         \* reported like any other damage)
+         strict == (e.kind \in {"flip", "bytes", "zeros", "garbage"} /\ ~e.tail) \/ (e.kind = "trunc" /\ e.hint)
          okErr(x) == x \notin {"panic", "stuck"}
          valOK(k) == \/ e.vals[k] = model[k]
                      \/ (e.vals[k] = -2 /\ okErr(e.geterrs[k]))                        \* an error other than not-found
